@@ -83,6 +83,13 @@ CHECKS["C02"] = dict(
     note="Level: proof of checker soundness + translation validation of sampled queries (not a proof about the translator). Trusted: Coq kernel; Cpp/IR.v + Cpp/Exec.v as the meaning of the emitted subset; the fail-closed emitted-text parser (every program is re-printed by the extracted printer and compared with the emitted lines); extraction + OCaml driver; qgen generator bounds; g++ 12 and the generated stand-in headers (the real ATLAS/CMS headers are absent: 'as declared'). types_ok_sound assumes events respect the declared method types (ev_ok). The generic template-rendering theorem is C14's.",
     technique="Coq proof (mutual induction over stmt/block/stmts with a static-scope/dynamic-frames invariant) + verified-checker translation validation + g++ oracle",
 )
+CHECKS["C04"] = dict(
+    category="proof",
+    text="Coq theorems over the translator's lowering schemas (Gallina functions mirroring visit_BoolOp, visit_IfExp, call_Where, call_First, visit_Subscript and the isNonnull guard) in the big-step semantics of the emitted C++ subset, each for ALL sub-fragments (operand blocks, arms, guarded code, guard expressions) x all events x all states: once an and/or result is absorbing none of the remaining operand blocks runs (n operands, by induction), otherwise exactly the next one does; exactly the taken arm of a conditional runs and leaves its value as a double; a false Where predicate executes nothing of what follows; the First fragment faults iff no element passes its guards and otherwise behaves exactly as one run of the body on the first passing element; at() faults iff the index is out of range; a call through a null link faults and is not evaluated under a false non-null flag. The for-all-QUERIES part is sampled: extracted Coq recognisers check, for every generated query on three backends, that each bool_op/if_else_result/is_first/is_non_null variable of the emitted program is an instance of its schema, and the Coq-defined executor is run against the query's reference semantics on events designed to trigger or not trigger each fault.",
+    design_ref="5.4",
+    note="Proved: schema theorems (all sub-fragments/events/states), closed under the global context. Sampled, not proved: that every accepted query is lowered to schema instances (recognisers + differential on generated queries; counts and feature histogram in the evidence). Trusted: Exec.v as the model of the C++ subset, the fail-closed parser of the emitted text (round trip checked per case), extraction, the Python reference semantics (eager), the stand-in for nullable links and for the injected isNonnull block. Known findings: First/Count after a non-top-level SelectMany; First bound in a tuple and used only under a false guard (job lazier than the eager query). cms_miniaod's differential needs the two C06 repairs (skipped with a note otherwise; recognisers still run).",
+    technique="Coq schema theorems + extracted recognisers (translation validation) + differential execution on fault-designed events",
+)
 NOT_YET = {}
 
 def main():
